@@ -212,3 +212,58 @@ func (o *Once) Do(f func()) {
 		f()
 	}
 }
+
+// Cond: simulated condition variable (L is any Locker, normally *Mutex).
+type Cond struct {
+	L interface {
+		Lock()
+		Unlock()
+	}
+	id      int
+	owner   *Sim
+	waiters []*G
+}
+
+func NewCond(l interface {
+	Lock()
+	Unlock()
+}) *Cond { return &Cond{L: l} }
+
+func (c *Cond) ident() int {
+	if c.id == 0 || c.owner != S {
+		c.id, c.owner, c.waiters = S.newObj(), S, nil
+	}
+	return c.id
+}
+
+func (c *Cond) Wait() {
+	s := S
+	s.check()
+	s.ev("cond-wait", c.ident(), "")
+	c.waiters = append(c.waiters, s.cur)
+	c.L.Unlock()
+	s.park(fmt.Sprintf("cond #%d", c.id))
+	c.L.Lock()
+}
+
+func (c *Cond) Signal() {
+	s := S
+	s.check()
+	s.ev("cond-signal", c.ident(), "")
+	if len(c.waiters) > 0 {
+		k := s.Tape.Choose(StSched, len(c.waiters), 0.7)
+		g := c.waiters[k]
+		c.waiters = append(c.waiters[:k], c.waiters[k+1:]...)
+		s.ready(g)
+	}
+}
+
+func (c *Cond) Broadcast() {
+	s := S
+	s.check()
+	s.ev("cond-broadcast", c.ident(), "")
+	for _, g := range c.waiters {
+		s.ready(g)
+	}
+	c.waiters = nil
+}
